@@ -1067,7 +1067,85 @@ def no_stored_ci(jm, snap):
     return snap[1] is None or meta_value_str(jm, snap[1]) in ("none", "torn")
 
 
-def judge_image(jm, scratch, img, op, old, adm_ci, tv_old):
+TAIL_SIG = "journal.%s:reopened-journal-breaks-on-continuation"
+
+
+def tail_variant(jm, scratch, img, variant):
+    """One fixed continuation on the journal reopened from a directory image, judged against a plain
+    Python list that starts from the reopened entries (model-free).
+      "A": deleteEntriesFrom(len-1) (skipped when empty), add, deleteEntriesTo(1), add, reopen
+      "B": deleteEntriesFrom(0) (walks back over EVERY record, also those written before the kill), add, reopen
+    Returns (None | text of the failing step, number of steps done)."""
+    write_snapshot(scratch, img)
+    steps = 0
+    r = None
+    try:
+        try:
+            r = Real(jm, scratch)
+        except Exception as e:                           # noqa  (judged elsewhere: the reopen itself fails)
+            return None, 0
+        ref = r.entries()
+        if variant == "A":
+            plan = ([["delfrom", len(ref) - 1]] if ref else []) + [["add", 1001, 9, {"hex": "6331"}], ["delto", 1],
+                                                                      ["add", 1002, 9, {"hex": "6332"}], ["reopen", "destroy"]]
+        else:
+            plan = [["delfrom", 0], ["add", 1003, 9, {"hex": "6333"}], ["reopen", "destroy"]]
+        for op in plan:
+            steps += 1
+            name = "%s(%s)" % (METHOD.get(op[0], op[0]), op[1] if op[0] in ("delfrom", "delto") else "")
+            try:
+                if op[0] == "reopen":
+                    r = reopen(r, op[1])
+                else:
+                    r.apply(op)
+                ref_apply(ref, op)
+                got = r.entries()
+            except Exception as e:                       # noqa
+                return "step %d %s raised %s: %s" % (steps, name, type(e).__name__, e), steps
+            if got != ref:
+                return "after step %d %s the journal holds %s, a plain list %s" % (steps, name, short_ents(got), short_ents(ref)), steps
+        return None, steps
+    finally:
+        if r is not None:
+            r.abandon()
+        remove_files(scratch)
+
+
+def judge_tail(jm, scratch, img, opname, cov=None):
+    """both fixed tails on (fresh copies of) one crash image; None or (signature, what, variant)"""
+    if cov is not None:
+        cov.hit("tail.points")
+        cov.hit("tail.after." + opname)
+    key = hash(img)
+    hit = _TAIL_CACHE.get(key)
+    if hit is not None and hit[0] == img:               # the very same directory image was continued before
+        if cov is not None:
+            cov.hit("tail.same_image_as_before")
+            cov.hit("tail.steps", hit[2])
+        res = hit[1]
+    else:
+        res, total = None, 0
+        for variant in ("A", "B"):
+            bad, steps = tail_variant(jm, scratch, img, variant)
+            total += steps
+            if bad is not None:
+                res = (bad, variant)
+                break
+        if cov is not None:
+            cov.hit("tail.steps", total)
+        if len(_TAIL_CACHE) > 4000:
+            _TAIL_CACHE.clear()
+        _TAIL_CACHE[key] = (img, res, total)
+    if res is not None:
+        return (TAIL_SIG % opname, "the journal reopened after the kill equals the expected list, but continuing on it fails "
+                                   "(tail %s): %s" % (res[1], res[0]), res[1])
+    return None
+
+
+_TAIL_CACHE = {}
+
+
+def judge_image(jm, scratch, img, op, old, adm_ci, tv_old, cov=None, tail=True):
     """Verdict of the property statement on one directory image left by a kill inside `op` (`old` =
     entries before the op): reopen it with the real class and apply crash_monitor + the (term, vote)
     rule.  A missing journal file is a violation by itself when there were entries: reopening silently
@@ -1085,11 +1163,14 @@ def judge_image(jm, scratch, img, op, old, adm_ci, tv_old):
         if m is None and o["tv"] not in tv_ok:
             m = ("journal.setTermAndVote:lost-or-invented-after-kill",
                  "(term, vote) after kill+reopen is %r, admissible: %s" % (o["tv"], sorted(tv_ok, key=repr)))
-        return m
+        if m is not None or not tail:
+            return m
     finally:
         if "real" in o:
             o["real"].abandon()
         remove_files(scratch)
+    t = judge_tail(jm, scratch, img, METHOD.get(op[0], op[0]), cov)
+    return None if t is None else t[:2]
 
 
 def fs_images(real, op):
@@ -1124,7 +1205,7 @@ def judge_fs_images(jm, scratch, imgs, op, old, adm_ci, tv_old, cov=None):
         if img in seen:
             m = seen[img]
         else:
-            m = seen[img] = judge_image(jm, scratch, img, op, old, adm_ci, tv_old)
+            m = seen[img] = judge_image(jm, scratch, img, op, old, adm_ci, tv_old, cov)
             if cov is not None:
                 cov.hit("fs_images.reopened")
         if m is not None:
@@ -1304,7 +1385,7 @@ def kill_creation(jm, path, snap, kill=None, fs_kill=None):
     return img, killed, rec_log, exc
 
 
-def judge_creation_image(jm, scratch, img, ci, tv):
+def judge_creation_image(jm, scratch, img, ci, tv, cov=None):
     """A directory image left by a kill inside the creation of the journal: the next FileJournal(path)
     must open (an empty journal), still read the stored commit index / term / vote, and be usable
     (an appended entry survives a reopen).  Returns (None | (signature, what), dict of observations)."""
@@ -1339,11 +1420,12 @@ def judge_creation_image(jm, scratch, img, ci, tv):
             return ("journal.create:reopened-journal-not-usable", "add + reopen raises %r" % (x,)), obs
         if got != [e]:
             return ("journal.create:reopened-journal-not-usable", "after add + reopen the journal holds %s" % short_ents(got)), obs
-        return None, obs
     finally:
         if "real" in o:
             o["real"].abandon()
         remove_files(scratch)
+    t = judge_tail(jm, scratch, img, "create", cov)
+    return (None if t is None else t[:2]), obs
 
 
 def creation_points(prims):
